@@ -13,6 +13,7 @@ Line-protocol driver of the C17 path post-processing model (header `pathops`).
   env <space> boxes … res <f>        -> ok w=<leaf count>       (only the space is used by the model)
   path <n> <state>*n                 -> ok
   collapse <ms> <me> cm <m> (<a> <b> <ans>)*m
+  ropeo <obj> <delta> <eqTol> cm …   -> as rope, the simplifier's objective = <obj> (len / work / lin / wreg / toll / step / checker)
   rope <delta> <eqTol> cm …          -> r <ret> out … oob <0/1> fo <0/1> (tree) | old <code before fix F9> | chord <code before fix F173: end-point pricing>
   subdivide | interpn <count>
   interp vsc <k> <n>*k
@@ -150,6 +151,33 @@ def objOf (sp : Space Float) (name : String) : Option (Obj (St Float) Float) :=
     some { identity := 0.0, combine := fun a b => a + b, better := fun a b => a < b, motion := workMotion }
   | _ => none
 
+/-- `ropeShortcutPath` under the objective whose motion cost is `motion` (additive combine, `<`): the tree (fix F173: the chord is priced
+by the pieces it is densified into), then the code before fix F9 (stale index, end-point pricing), then the code before fix F173 -/
+def ropeLine (sp : Space Float) (cmq : St Float → St Float → Bool) (motion : St Float → St Float → Float)
+    (delta tol : Float) (path : List (St Float)) : String :=
+  let E : RopeEnv (St Float) Float := {
+    cm := cmq
+    nInter := fun a b => let d := dist sp a b; if d > delta then (d / delta).floor.toUInt64.toNat else 0
+    interpK := fun a b n k => interp sp a b ((1.0 / (n + 1).toFloat) * (k + 1).toFloat)
+    identity := 0.0
+    combine := fun x y => x + y
+    motion := motion
+    subtract := fun x y => x - y
+    better := fun x y => x < y
+    eqCost := tol * delta }
+  let fuel := 100000
+  let Efix : RopeEnv (St Float) Float := { E with
+    chord := fun a b =>
+      let n := E.nInter a b
+      if n = 0 then E.motion a b
+      else ((a :: (inters E a b n ++ [b])).zip ((inters E a b n ++ [b]))).foldl (fun acc p => acc + E.motion p.1 p.2) 0.0 }
+  let showE (Ex : RopeEnv (St Float) Float) (fixed : Bool) : String :=
+    match ropeShortcutPathG Ex fixed fuel path with
+    | some (out, r, oob, fo) =>
+      "r " ++ retStr r ++ " " ++ showPath out ++ " oob " ++ retStr oob ++ " fo " ++ retStr fo
+    | none => "idx-error"
+  showE Efix true ++ " | old " ++ showE E false ++ " | chord " ++ showE E true
+
 /-- harness `wregFraction`: the fraction of the motion whose (x, y) lies in the box [3.5, 6.5]^2 (Liang-Barsky, same operations in
 the same order as the C++) -/
 def wregFraction (ax ay bx byy : Float) : Float :=
@@ -216,38 +244,12 @@ def step (st : DSt) (ts : List String) : DSt × String :=
           | _, _ => (st, "bad-op")
         | "rope", [delta, tol] =>
           match parseFloatBits? delta, parseFloatBits? tol with
-          | some delta, some tol =>
-            let E : RopeEnv (St Float) Float := {
-              cm := cmq
-              nInter := fun a b => let d := dist sp a b; if d > delta then (d / delta).floor.toUInt64.toNat else 0
-              interpK := fun a b n k => interp sp a b ((1.0 / (n + 1).toFloat) * (k + 1).toFloat)
-              identity := 0.0
-              combine := fun x y => x + y
-              motion := dist sp
-              subtract := fun x y => x - y
-              better := fun x y => x < y
-              eqCost := tol * delta }
-            let fuel := 100000
-            let show1 (fixed : Bool) : String :=
-              match ropeShortcutPathG E fixed fuel st.path with
-              | some (out, r, oob, fo) =>
-                "r " ++ retStr r ++ " " ++ showPath out ++ " oob " ++ retStr oob ++ " fo " ++ retStr fo
-              | none => "idx-error"
-            -- fix F173: the chord is priced by the pieces it will be densified into
-            let Efix : RopeEnv (St Float) Float := { E with
-              chord := fun a b =>
-                let n := E.nInter a b
-                if n = 0 then E.motion a b
-                else ((a :: (inters E a b n ++ [b])).zip ((inters E a b n ++ [b]))).foldl (fun acc p => acc + E.motion p.1 p.2) 0.0 }
-            -- the tree (since fix cfb403c2a, F173: the chord is priced by its densified pieces) first, then the code before fix F9
-            -- (stale index, end-point pricing), then the code before fix F173 (end-point pricing)
-            let showE (Ex : RopeEnv (St Float) Float) (fixed : Bool) : String :=
-              match ropeShortcutPathG Ex fixed fuel st.path with
-              | some (out, r, oob, fo) =>
-                "r " ++ retStr r ++ " " ++ showPath out ++ " oob " ++ retStr oob ++ " fo " ++ retStr fo
-              | none => "idx-error"
-            (st, showE Efix true ++ " | old " ++ showE E false ++ " | chord " ++ showE E true)
+          | some delta, some tol => (st, ropeLine sp cmq (dist sp) delta tol st.path)
           | _, _ => (st, "bad-op")
+        | "ropeo", [obj, delta, tol] =>
+          match objOf2 sp obj, parseFloatBits? delta, parseFloatBits? tol with
+          | some O, some delta, some tol => (st, ropeLine sp cmq O.motion delta tol st.path)
+          | _, _, _ => (st, "bad-op")
         | "subdivide", [] =>
           (st, "r -1 " ++ showPath (subdivide (fun a b => interp sp a b 0.5) st.path))
         | "interp", "vsc" :: k :: ns =>
